@@ -108,6 +108,28 @@ Qed.
 Definition cps_seg_fit (E : Z) (cps : list PCP) : bool :=
   (0 <=? E) && (E <=? 22) && (Z.of_nat (max_seg_len cps) * 2 ^ E <=? 2 ^ 22) && cps_within E cps.
 
+(* the general form: every slice the curve can take has at most m points *)
+Theorem curve_of_done_slices lm mode pos cps e E (m : nat) :
+  ThetaLoop.atan2_in_range lm -> path_image pos cps = true ->
+  0 <= E <= 22 -> cps_within E cps = true -> Z.of_nat m * 2 ^ E <= 2 ^ 22 ->
+  (forall start i, (start <= i < length cps)%nat ->
+     DecodeTerminatesSegLoop.untyped_between (map conv_pcp cps) start i -> (S i - start <= m)%nat) ->
+  exists c, curve_of lm mode cps e = Done c.
+Proof.
+  intros Hlm Hi HE Hw Hn Hsl.
+  unfold curve_of. apply DecodeTerminatesSegLoop.curve_L1_bounded_seg; [exact Hlm|].
+  intros start i Hsi Hu. rewrite map_length in Hsi. exists E. split; [lia|].
+  pose proof (path_image_points_ok_graded pos cps E ltac:(lia) Hi Hw) as Hok.
+  split.
+  - apply BezierIEEECurve.Forall_firstn, BezierIEEECurve.Forall_skipn.
+    rewrite map_map. apply Forall_map. exact Hok.
+  - pose proof (Hsl start i Hsi Hu) as Hl.
+    assert (Hlen : (length (firstn (S i - start) (skipn start (map Curve.pc_pos (map conv_pcp cps)))) <= S i - start)%nat)
+      by (rewrite firstn_length; lia).
+    assert (0 < 2 ^ E) by (apply Z.pow_pos_nonneg; lia).
+    nia.
+Qed.
+
 Theorem curve_of_done_seg lm mode pos cps e E :
   ThetaLoop.atan2_in_range lm -> path_image pos cps = true -> cps_seg_fit E cps = true ->
   exists c, curve_of lm mode cps e = Done c.
@@ -115,17 +137,8 @@ Proof.
   intros Hlm Hi Hf. unfold cps_seg_fit in Hf.
   apply andb_true_iff in Hf. destruct Hf as [Hf Hw]. apply andb_true_iff in Hf. destruct Hf as [Hf Hn].
   apply andb_true_iff in Hf. destruct Hf as [E0 E22].
-  unfold curve_of. apply DecodeTerminatesSegLoop.curve_L1_bounded_seg; [exact Hlm|].
-  intros start i Hsi Hu. rewrite map_length in Hsi. exists E. split; [lia|].
-  pose proof (path_image_points_ok_graded pos cps E ltac:(lia) Hi Hw) as Hok.
-  split.
-  - apply BezierIEEECurve.Forall_firstn, BezierIEEECurve.Forall_skipn.
-    rewrite map_map. apply Forall_map. exact Hok.
-  - pose proof (seg_slice_length cps start i Hsi Hu) as Hl.
-    assert (Hlen : (length (firstn (S i - start) (skipn start (map Curve.pc_pos (map conv_pcp cps)))) <= S i - start)%nat)
-      by (rewrite firstn_length; lia).
-    assert (0 < 2 ^ E) by (apply Z.pow_pos_nonneg; lia).
-    nia.
+  apply (curve_of_done_slices lm mode pos cps e E (max_seg_len cps) Hlm Hi); [lia|exact Hw|lia|].
+  intros start i Hsi Hu. exact (seg_slice_length cps start i Hsi Hu).
 Qed.
 
 Corollary dist_of_curve_done_seg lm mode pos cps e E :
